@@ -671,7 +671,7 @@ func (c *Ctx) argVarsInvariant(fn *ssa.Function, idxS string, below func(string,
 // typePredicateRule: the go/types classifiers everything else is phrased in judge what their names say.
 func (c *Ctx) typePredicateRule(rule string) {
 	r := c.R
-	r.Rule(rule, "type classifiers of pkg/util: IsStructType/IsSliceType ⇔ comma-ok assertion of t.Underlying() (the parameter's own underlying type: no pointer dereference) to *types.Struct / *types.Slice; IsPtr/IsNamedType/IsBasicType ⇔ comma-ok assertion of t itself to *types.Pointer / *types.Named / *types.Basic; DerefPtr(t) = Elem() of that pointer when t is a pointer, else t; IsErrorType(t) ⇔ t.String() == \"error\"")
+	r.Rule(rule, "type classifiers of pkg/util: IsStructType/IsSliceType ⇔ comma-ok assertion of t.Underlying() (the parameter's own underlying type: no pointer dereference) to *types.Struct / *types.Slice; IsPtr/IsNamedType/IsBasicType ⇔ comma-ok assertion of t itself to *types.Pointer / *types.Named / *types.Basic; DerefPtr(t) = Elem() of that pointer when t is a pointer, else t; IsErrorType(t) ⇔ t.String() == \"error\"; PkgOf: Obj().Pkg() of a named type, through pointers, else nil; IsInvalidType ⇔ basic type of kind Invalid; ImportNames.LookupName = table[path] with its presence flag")
 	type spec struct {
 		name, asserted string
 		underlying     bool
@@ -725,6 +725,51 @@ func (c *Ctx) typePredicateRule(rule string) {
 			}
 		}
 		r.Check(rule, FnKey(fn)+":one-level", c.Pos(fn.Pos()), okAll && n >= 2, "DerefPtr must return the pointer's element type for a pointer and the type itself otherwise (exactly one level)")
+	}
+	if fn := c.MustFunc(rule, "/pkg/util", "PkgOf"); fn != nil {
+		p0 := "param:" + fn.Params[0].Name()
+		okAll, nNamed, nPtr := true, 0, 0
+		isA := func(ty string) core.LitMatcher {
+			return c.M(true, func(t *core.Term) bool {
+				return t.Kind == "extract" && t.Name == "1" && t.Args[0].Kind == "typeassert,ok" && t.Args[0].Name == ty && t.Args[0].Args[0].String() == p0
+			})
+		}
+		for _, ret := range core.Returns(fn) {
+			t := c.O.Of(ret.Results[0])
+			d := c.ReachOf(ret)
+			switch {
+			case t.Is("const", "nil"):
+			case t.Kind == "call" && strings.HasSuffix(t.Name, ").Pkg") && t.Contains(func(s *core.Term) bool { return s.IsCallTo("(*go/types.Named).Obj") && s.Contains(func(q *core.Term) bool { return q.String() == p0 }) }):
+				nNamed++
+				okAll = okAll && d.Implies(isA("*types.Named"))
+			case t.IsCallTo(pUtil+"PkgOf") && t.Args[0].IsCallTo("(*go/types.Pointer).Elem") && t.Args[0].Contains(func(q *core.Term) bool { return q.String() == p0 }):
+				nPtr++
+				okAll = okAll && d.Implies(isA("*types.Pointer"))
+			default:
+				okAll = false
+			}
+		}
+		r.Check(rule, FnKey(fn)+":package-of", c.Pos(fn.Pos()), okAll && nNamed >= 1 && nPtr >= 1, "PkgOf must answer Obj().Pkg() for a named type, the package of the element for a pointer, and nil otherwise")
+	}
+	if fn := c.MustFunc(rule, "/pkg/util", "IsInvalidType"); fn != nil {
+		p0 := "param:" + fn.Params[0].Name()
+		tr := c.Reach(fn).RetCond(0, true)
+		basic := c.M(true, func(t *core.Term) bool {
+			return t.Kind == "extract" && t.Name == "1" && t.Args[0].Kind == "typeassert,ok" && t.Args[0].Name == "*types.Basic" && t.Contains(func(q *core.Term) bool { return q.String() == p0 })
+		})
+		invalid := c.M(true, eqConst(func(t *core.Term) bool { return t.IsCallTo("(*go/types.Basic).Kind") }, "0"))
+		r.Check(rule, FnKey(fn)+":invalid", c.Pos(fn.Pos()), len(tr) > 0 && tr.Implies(basic) && tr.Implies(invalid), "IsInvalidType must answer true only for a basic type of kind types.Invalid; true-condition: "+tr.Describe(c.O))
+	}
+	if fn := c.P.LookupMethod("/pkg/util", "ImportNames", "LookupName"); fn != nil {
+		okL := false
+		for _, ret := range core.Returns(fn) {
+			if len(ret.Results) == 2 {
+				a, b := c.O.Of(ret.Results[0]), c.O.Of(ret.Results[1])
+				okL = a.Kind == "extract" && a.Name == "0" && b.Kind == "extract" && b.Name == "1" && a.Args[0].Kind == "lookup,ok" && a.Args[0].V == b.Args[0].V &&
+					a.Args[0].Args[0].Kind == "param" && a.Args[0].Args[1].Kind == "param"
+			}
+		}
+		r.Check(rule, FnKey(fn)+":lookup", c.Pos(fn.Pos()), okL, "LookupName must answer the table entry of the given path with its presence flag")
 	}
 	if fn := c.MustFunc(rule, "/pkg/util", "IsErrorType"); fn != nil {
 		p0 := "param:" + fn.Params[0].Name()
@@ -1041,4 +1086,349 @@ func (c *Ctx) deferredResultRule(rule string) {
 		}
 	}
 	r.Note(rule+"_closures_writing_error_results", n)
+}
+
+// namingRule: accessors return the field they are named after; constructors store a parameter into the field it is named after.
+func (c *Ctx) namingRule(rule string, pkgSuffixes ...string) {
+	r := c.R
+	r.Rule(rule, "accessor/constructor agreement in "+strings.Join(pkgSuffixes, ", ")+": a method whose body is a single `return recv.f` and whose name equals (ignoring case) a field of its receiver returns that field; a value stored into field f of a composite literal directly from a parameter whose name equals (ignoring case) a field of the same struct goes into that field, also when wrapped by a New… constructor (Src()/Dst(), lhs/rhs, name/pkg are never cross-wired)")
+	n := 0
+	for _, fn := range c.P.Funcs() {
+		p := pkgOf(fn)
+		if p == nil || fn.Synthetic != "" {
+			continue
+		}
+		in := false
+		for _, s := range pkgSuffixes {
+			if p.Path() == mod+s {
+				in = true
+			}
+		}
+		if !in {
+			continue
+		}
+		// accessors
+		if recv := fn.Signature.Recv(); recv != nil && len(fn.Blocks) == 1 && fn.Signature.Results().Len() == 1 && len(fn.Params) == 1 {
+			if st := structOf(recv.Type()); st != nil {
+				rets := core.Returns(fn)
+				if len(rets) == 1 {
+					t := c.O.Of(rets[0].Results[0])
+					if t.Kind == "field" && len(t.Args) == 1 && (t.Args[0].Kind == "param" || t.Args[0].Kind == "deref" || t.Args[0].Kind == "field") {
+						// the struct the returned field belongs to (the receiver itself or an inner struct field of it)
+						if t.Args[0].Kind == "field" && t.Args[0].Type != nil {
+							if inner := structOf(t.Args[0].Type); inner != nil {
+								st = inner
+							}
+						}
+						want := ""
+						for i := 0; i < st.NumFields(); i++ {
+							if strings.EqualFold(st.Field(i).Name(), fn.Name()) {
+								want = st.Field(i).Name()
+							}
+						}
+						if want != "" {
+							n++
+							got := t.Name[strings.LastIndex(t.Name, ".")+1:]
+							r.Check(rule, FnKey(fn)+":returns-"+want, c.Pos(fn.Pos()), got == want, "accessor "+fn.Name()+" returns field "+got+" instead of "+want)
+						}
+					}
+				}
+			}
+		}
+		// literals: parameter → field
+		for _, b := range fn.Blocks {
+			for _, ins := range b.Instrs {
+				st, ok := ins.(*ssa.Store)
+				if !ok {
+					continue
+				}
+				fa, ok := st.Addr.(*ssa.FieldAddr)
+				if !ok {
+					continue
+				}
+				// the value is a parameter, or is computed from exactly one parameter (src: NewIdentMatcher(src))
+				var par *ssa.Parameter
+				if pv, isP := st.Val.(*ssa.Parameter); isP {
+					par = pv
+				} else {
+					seen := map[string]bool{}
+					if vt := c.O.Of(st.Val); vt.Kind == "call" && strings.HasPrefix(vt.Name[strings.LastIndex(vt.Name, ".")+1:], "New") {
+						for _, a := range vt.Args { // a wrapping constructor applied directly to the parameter
+							if a.Kind == "param" {
+								seen[a.Name] = true
+							}
+						}
+					}
+					if len(seen) == 1 {
+						for _, q := range fn.Params {
+							if seen[q.Name()] {
+								par = q
+							}
+						}
+					}
+				}
+				if par == nil {
+					continue
+				}
+				sty := structOf(fa.X.Type())
+				if sty == nil {
+					continue
+				}
+				want := ""
+				for i := 0; i < sty.NumFields(); i++ {
+					if strings.EqualFold(sty.Field(i).Name(), par.Name()) {
+						want = sty.Field(i).Name()
+					}
+				}
+				if want == "" {
+					continue
+				}
+				n++
+				got := sty.Field(fa.Field).Name()
+				r.Check(rule, FnKey(fn)+":"+par.Name()+"→"+want, c.InstrPos(st), got == want, "parameter "+par.Name()+" is stored into field "+got+" although the struct has a field "+want)
+			}
+		}
+	}
+	r.Floor(rule, "accessors and parameter-to-field stores examined", n, 1)
+}
+
+func structOf(t types.Type) *types.Struct {
+	if p, ok := t.Underlying().(*types.Pointer); ok {
+		t = p.Elem()
+	}
+	st, _ := t.Underlying().(*types.Struct)
+	return st
+}
+
+// nodeAccessorRule: the implementers of bmodel.Node agree on what each accessor denotes.
+func (c *Ctx) nodeAccessorRule(rule string) {
+	r := c.R
+	r.Rule(rule, "Node accessors: a wrapper node (converter, typecast, stringer) answers ObjName/Parent/ObjNullable/MatcherExpr/NullCheckExpr by asking the same accessor of its inner node; ExprType is the node's own type (field typ; field.Type(); Results().At(0).Type() of the method; the converter's RetType(); the conversion target; string for a String() call); ReturnsError is false except for a method node (two results) and a converter node (the converter's RetError()); ObjNullable is IsPtr of the node's own type")
+	bm := c.P.Pkg("/pkg/builder/model")
+	if bm == nil {
+		r.Undecided(rule, "anchor", "builder/model not loaded")
+		return
+	}
+	obj := bm.Types.Scope().Lookup("Node")
+	if obj == nil {
+		r.Undecided(rule, "anchor", "Node interface not found")
+		return
+	}
+	iface := obj.Type().Underlying().(*types.Interface)
+	n := 0
+	for _, impl := range c.P.Implementers(iface) {
+		tn := impl.Obj().Name()
+		for i := 0; i < iface.NumMethods(); i++ {
+			mname := iface.Method(i).Name()
+			fn := c.P.LookupMethod("/pkg/builder/model", tn, mname)
+			if fn == nil {
+				continue
+			}
+			rets := core.Returns(fn)
+			if len(rets) != 1 || len(rets[0].Results) != 1 {
+				continue // rendering methods with branches are compared as templates (C02-4)
+			}
+			t := c.O.Of(rets[0].Results[0])
+			key := "(" + tn + ")." + mname
+			pos := c.Pos(fn.Pos())
+			// delegation to an inner node: same accessor
+			if t.Kind == "invoke" && strings.HasPrefix(t.Name, "(model.Node).") && len(t.Args) == 1 && t.Args[0].Kind == "field" {
+				callee := strings.TrimPrefix(t.Name, "(model.Node).")
+				exception := tn == "ConverterNode" && mname == "Parent" // documented: the converter's argument decides the parent
+				_ = exception
+				n++
+				r.Check(rule, key+":delegates", pos, callee == mname, tn+"."+mname+" answers with the inner node's "+callee+"()")
+				continue
+			}
+			isRecvField := func(x *core.Term, name string) bool {
+				return x.Kind == "field" && strings.HasSuffix(x.Name, "."+name) && len(x.Args) == 1 && (x.Args[0].Kind == "param" || x.Args[0].Kind == "deref")
+			}
+			typeOfField := func(x *core.Term, fld string) bool { // n.<fld>.Type()
+				return x.Kind == "call" && strings.HasSuffix(x.Name, ").Type") && len(x.Args) == 1 && x.Args[0].Contains(func(s *core.Term) bool { return isRecvField(s, fld) })
+			}
+			result0 := func(x *core.Term) bool { // n.method.Type().(*types.Signature).Results().At(0).Type()
+				return x.Kind == "call" && strings.HasSuffix(x.Name, ").Type") && x.Contains(func(s *core.Term) bool {
+					return s.IsCallTo("(*go/types.Tuple).At") && s.Args[1].Is("const", "0") && s.Args[0].IsCallTo("(*go/types.Signature).Results") && s.Contains(func(q *core.Term) bool { return isRecvField(q, "method") })
+				})
+			}
+			var ok bool
+			var want string
+			switch mname {
+			case "ExprType":
+				switch tn {
+				case "RootNode", "ScalarNode", "TypecastEntry":
+					ok, want = isRecvField(t, "typ"), "the node's typ field"
+				case "StructFieldNode":
+					ok, want = typeOfField(t, "field"), "field.Type()"
+				case "StructMethodNode":
+					ok, want = result0(t), "Results().At(0).Type() of the method"
+				case "ConverterNode":
+					ok, want = t.IsCallTo("(*"+pOpt+"FieldConverter).RetType") && isRecvField(t.Args[0], "converter"), "converter.RetType()"
+				case "StringerEntry":
+					ok, want = t.Contains(func(s *core.Term) bool { return s.IsCallTo("(*go/types.Scope).Lookup") && s.Args[1].Is("const", `"string"`) }) || t.IsCallTo(fnStringType), "the predeclared string type"
+				default:
+					continue
+				}
+			case "ReturnsError":
+				switch tn {
+				case "StructMethodNode":
+					ok = eqConst(func(x *core.Term) bool {
+						return x.IsCallTo("(*go/types.Tuple).Len") && x.Args[0].IsCallTo("(*go/types.Signature).Results") && x.Contains(func(q *core.Term) bool { return isRecvField(q, "method") })
+					}, "2")(t)
+					want = "Results().Len() == 2 of the method"
+				case "ConverterNode":
+					ok, want = t.IsCallTo("(*"+pOpt+"FieldConverter).RetError") && isRecvField(t.Args[0], "converter"), "converter.RetError()"
+				default:
+					ok, want = t.Is("const", "false"), "false"
+				}
+			case "ObjNullable":
+				if !t.IsCallTo(pUtil + "IsPtr") {
+					ok, want = false, "util.IsPtr(<own type>)"
+					break
+				}
+				a := t.Args[0]
+				switch tn {
+				case "RootNode", "ScalarNode":
+					ok, want = isRecvField(a, "typ"), "IsPtr(typ)"
+				case "StructFieldNode":
+					ok, want = typeOfField(a, "field"), "IsPtr(field.Type())"
+				case "StructMethodNode":
+					ok, want = result0(a) || (a.Kind == "call" && strings.HasSuffix(a.Name, "StructMethodNode).ExprType")), "IsPtr(ExprType())"
+				default:
+					continue
+				}
+			case "Parent":
+				switch tn {
+				case "RootNode":
+					ok, want = t.Is("const", "nil"), "nil"
+				case "ScalarNode", "StructFieldNode":
+					ok, want = isRecvField(t, "parent"), "the parent field"
+				case "StructMethodNode":
+					ok, want = isRecvField(t, "container"), "the container field"
+				default:
+					continue
+				}
+			case "ObjName":
+				switch tn {
+				case "RootNode", "ScalarNode":
+					ok, want = isRecvField(t, "name"), "the name field"
+				case "StructFieldNode":
+					ok, want = t.Kind == "call" && strings.HasSuffix(t.Name, ").Name") && t.Contains(func(q *core.Term) bool { return isRecvField(q, "field") }), "field.Name()"
+				case "StructMethodNode":
+					ok, want = t.Kind == "call" && strings.HasSuffix(t.Name, ").Name") && t.Contains(func(q *core.Term) bool { return isRecvField(q, "method") }), "method.Name()"
+				default:
+					continue
+				}
+			default:
+				continue
+			}
+			n++
+			r.Check(rule, key, pos, ok, tn+"."+mname+" must be "+want+", got "+t.String())
+		}
+	}
+	r.Floor(rule, "single-return Node accessors examined", n, 30)
+}
+
+// errorfRule: logger.Errorf builds the error from its own operands, prints it on the error logger and returns it.
+func (c *Ctx) errorfRule(rule string) {
+	r := c.R
+	r.Rule(rule, "logger.Errorf(format, a...) returns fmt.Errorf(format, a...) of its own parameters and unconditionally prints that error's text on the error logger (elogger); logger.Printf (progress messages) never writes to elogger")
+	if fn := c.MustFunc(rule, "/pkg/logger", "Errorf"); fn != nil {
+		key := FnKey(fn)
+		rets := core.Returns(fn)
+		okRet := len(rets) == 1
+		var errT *core.Term
+		if okRet {
+			errT = c.O.Of(rets[0].Results[0])
+			okRet = errT.IsCallTo("fmt.Errorf") && len(errT.Args) == 2 && errT.Args[0].Kind == "param" && errT.Args[1].Kind == "param" && errT.Args[0].Name != errT.Args[1].Name
+		}
+		r.Check(rule, key+":returns", c.Pos(fn.Pos()), okRet, "Errorf must return fmt.Errorf(format, a...) of its own parameters")
+		printed := false
+		for _, name := range []string{"(*log.Logger).Println", "(*log.Logger).Print", "(*log.Logger).Printf"} {
+			for _, s := range c.CallsIn(fn, name, false) {
+				if !c.O.Of(s.Args()[0]).Is("global", "logger.elogger") {
+					continue
+				}
+				d := c.ReachOf(s.Instr)
+				uncond := len(d) == 1 && len(d[0]) == 0
+				// the text printed: err.Error() of the returned error, or format+operands themselves
+				var what *core.Term
+				if name == "(*log.Logger).Printf" {
+					what = c.O.Of(s.Args()[1])
+					if uncond && what.Kind == "param" && c.O.Of(s.Args()[2]).Kind == "param" {
+						printed = true
+					}
+					continue
+				}
+				if el := c.varargAt(s.Args()[1], 0); el != nil && uncond && errT != nil {
+					if el.Kind == "invoke" && el.Name == "(error).Error" && el.Args[0].String() == errT.String() {
+						printed = true
+					}
+					if el.String() == errT.String() {
+						printed = true
+					}
+				}
+			}
+		}
+		r.Check(rule, key+":prints-on-elogger", c.Pos(fn.Pos()), printed, "Errorf must unconditionally print the text of the error it returns on elogger (the diagnostic on stderr)")
+	}
+	if fn := c.MustFunc(rule, "/pkg/logger", "Printf"); fn != nil {
+		clean := true
+		for _, s := range c.Calls(func(n string) bool { return strings.HasPrefix(n, "(*log.Logger).") }) {
+			if s.Fn == fn && c.O.Of(s.Args()[0]).Is("global", "logger.elogger") {
+				clean = false
+			}
+		}
+		r.Check(rule, FnKey(fn)+":not-on-elogger", c.Pos(fn.Pos()), clean, "progress messages (logger.Printf) must not be written to the error logger: they would appear on stderr as diagnostics")
+	}
+}
+
+// defaultsRule: option.NewOptions yields the documented defaults and no shared slice storage.
+func (c *Ctx) defaultsRule(rule string) {
+	r := c.R
+	r.Rule(rule, "documented defaults: option.NewOptions() = {Style: return, Rule: name, ExactCase: true, Getter/Stringer/Typecast/Reverse: false, Receiver: \"\"}, every list field nil (a pre-allocated list would be shared by every copy of the options), and the parser's default options are exactly NewOptions()")
+	fn := c.MustFunc(rule, "/pkg/option", "NewOptions")
+	ot := c.MustType(rule, "/pkg/option", "Options")
+	if fn == nil || ot == nil {
+		return
+	}
+	want := map[string]string{"Style": `"return"`, "Rule": `"name"`, "ExactCase": "true"}
+	found := false
+	for _, a := range c.Lits(ot) {
+		if a.Parent() != fn {
+			continue
+		}
+		found = true
+		f := LitFields(a)
+		st := ot.Underlying().(*types.Struct)
+		for i := 0; i < st.NumFields(); i++ {
+			name := st.Field(i).Name()
+			v, set := f[name]
+			key := FnKey(fn) + ":" + name
+			if w, has := want[name]; has {
+				r.Check(rule, key, c.InstrPos(a), set && c.O.Of(v).Is("const", w), "default of "+name+" must be "+w)
+				continue
+			}
+			if !set {
+				r.Check(rule, key, c.InstrPos(a), true, "")
+				continue
+			}
+			t := c.O.Of(v)
+			zero := t.Is("const", "false") || t.Is("const", `""`) || t.Is("const", "nil") || t.Is("const", "0")
+			r.Check(rule, key, c.InstrPos(a), zero, "default of "+name+" must be the zero value (a pre-set toggle changes every method; a pre-allocated list is shared between all copies), got "+t.String())
+		}
+	}
+	r.Check(rule, FnKey(fn)+":literal", c.Pos(fn.Pos()), found, "NewOptions does not build an Options literal")
+	// the parser starts from NewOptions()
+	if pt := c.MustType(rule, "/pkg/parser", "Parser"); pt != nil {
+		n := 0
+		for _, a := range c.Lits(pt) {
+			f := LitFields(a)
+			if v, ok := f["opts"]; ok {
+				n++
+				r.Check(rule, FnKey(a.Parent())+":Parser.opts", c.InstrPos(a), c.O.Of(v).IsCallTo(pOpt+"NewOptions"), "the parser's default options must be option.NewOptions(), got "+c.O.Of(v).String())
+			}
+		}
+		r.Floor(rule, "Parser literals setting opts", n, 1)
+	}
 }
